@@ -78,7 +78,7 @@ theorem GenInv.of_same {s s' : State} (h : s'.ms = s.ms) (hs : GenInv a g s) : G
   unfold GenInv at *; rw [h]; exact hs
 
 theorem GenInv.base : Base E (GenInv a g) (fun _ => True) where
-  okDown0 := fun _ => trivial
+  ownDown := fun _ _ => trivial
   membersApply := fun u _ => ⟨fun c hc => by
     unfold Foca.membersApply
     cases h : Foca.applyExisting c.s.ms u (fun _ => true) with
@@ -129,7 +129,7 @@ theorem GenInv.base : Base E (GenInv a g) (fun _ => True) where
     exact Pres.modS_of (fun s hs => GenInv.of_same a g rfl hs)
   modCtl := fun f h => Pres.modS_of (fun s hs => GenInv.of_same a g (h s).1 hs)
   setHst := fun _ => Pres.modS_of (fun s hs => GenInv.of_same a g rfl hs)
-  addCustom := fun _ _ _ => Pres.modS_of (fun s hs => GenInv.of_same a g rfl hs)
+  addCustom := fun _ _ _ _ => Pres.modS_of (fun s hs => GenInv.of_same a g rfl hs)
 
 theorem GenInv.modId (f : State → State) (h : IdCtl f) : Pres (GenInv a g) (modS f) :=
   Pres.modS_of (fun s hs => GenInv.of_same a g (h s).1 hs)
@@ -137,6 +137,7 @@ theorem GenInv.modId (f : State → State) (h : IdCtl f) : Pres (GenInv a g) (mo
 theorem GenInv.full : Full E (GenInv a g) (fun _ => True) (fun _ => True) (fun _ => True) where
   toBase := GenInv.base E a g
   handleSelfUpdate := (GenInv.base E a g).handleSelfUpdate_of (GenInv.modId a g)
+  inputDown := fun _ _ => trivial
   senderOk := fun _ _ _ _ _ => trivial
   applyOk := fun _ _ _ _ _ _ => trivial
   failedOk := fun _ _ _ _ => trivial
